@@ -7,6 +7,14 @@ import json, os, subprocess
 ROOT = os.path.dirname(os.path.dirname(os.path.abspath(__file__)))
 
 CHECKS = {
+    "C07": dict(cat="exploration", sec="5 C07",
+                tech="runtime monitor: deterministic single-threaded adversarial network simulator over real v2 protocol instances and dag.States (wire-level envelopes only); per-step safety oracle + bounded-round convergence; live mode under the race detector",
+                text="N in {2,3,4} real nodes (real dag.State with production verifiers + real v2 protocol through the verif shims) in pair/line/triangle/ring/star/full topologies exchange only marshalled envelopes through a simulator whose seeded adversary delivers in "
+                     "any order, drops, duplicates, delays, injects stale and unsolicited copies, forges Gossip/TransactionSet/TransactionList messages carrying tampered transactions, ticks gossip, expires conversations and creates transactions. DAG groups: identical, "
+                     "disjoint, behind, far behind (root vs 1560-2000 txs over 4 pages), arbitrary, IBLT overflow (>650 in one page; capacity measured), multi-page, private, gossip-ahead, XOR-colliding. After every step: every admission is a generated valid "
+                     "transaction arriving after its prevs exactly once, sets only grow, XOR/clock agree with the admissions. Liveness as bounded progress: after the fault phase all nodes hold the union within R = 4 + pages + 2*(diameter-1) fair gossip rounds "
+                     "(logical; hard cap 10R; livelock detection). Thorough adds live mode through production Handle in a child process under -race (convergence held/inconclusive only).",
+                note="Unbounded 'eventually' is restated as R logical rounds after faults stop; handlers run synchronously in the simulator (goroutine fan-out only in live mode); no peer disconnect/reconnect; payload synchronisation is C15's."),
     "C16": dict(cat="exploration", sec="5 C16",
                 tech="runtime monitor: reference list model vs real discovery server/client node pairs driven over HTTP by harness-owned registrants; hook-steered polls racing registrations; online timestamp monotonicity; race detector",
                 text="4-8 pairs of complete in-process nodes (server S, pure client C polling S over real localhost HTTP via a synchronous refresh shim). Registrants are harness-owned did:jwk/did:key holders presenting harness-issued JWT credentials (status lists served by the harness). "
